@@ -177,6 +177,13 @@ func (server *Server) ServeCodec(codec ServerCodec) {
 			})
 		}
 	}
+	if !server.directIO {
+		// Frames already read may still be queued for dispatch; let them
+		// register with wg before waiting on it.
+		dispatched := make(chan struct{})
+		pipeline.Schedule(func() { close(dispatched) })
+		<-dispatched
+	}
 	wg.Wait()
 	server.mutex.Lock()
 	server.deleteCodec(codec)
